@@ -90,6 +90,14 @@ def DS.printed (d : DS) (subqAlias : String := "") : String :=
   | .path u => u
   | .subq _ => subqAlias
 
-abbrev LGraph := Graph Node Column
+/-- what a graph key object carries beyond its identity: a `Column`'s raw name and owner candidates, a `SubQuery`'s
+    alias (the first inserted object stays the dict key, so e.g. a CTE referenced under an alias keeps printing as the
+    CTE name) -/
+inductive Payload
+  | col (c : Column)
+  | sub (alias : String)
+  deriving DecidableEq, Repr, Inhabited
+
+abbrev LGraph := Graph Node Payload
 
 end SqlLineage
